@@ -305,3 +305,88 @@ func TestSliceExhaustive(t *testing.T) {
 	P.SetExtra("slice_index_cases", n)
 	P.SetExhaustive()
 }
+
+// ---------- reuse and concurrency of one parsed selector ----------
+
+type ReuseCase struct {
+	Sel        sel.Sel `json:"sel"`
+	Datas      []val.V `json:"datas"`
+	Goroutines int     `json:"goroutines"`
+}
+
+func outKey(o outcome) string {
+	if o.st == sel.Value {
+		return "v:" + canon(o.node)
+	}
+	return o.st.String()
+}
+
+func runReuse(c *h.Ctx, rc ReuseCase) {
+	text := rc.Sel.Text()
+	shared, err := selector.Parse(text)
+	if err != nil {
+		return
+	}
+	nodes := make([]ipld.Node, len(rc.Datas))
+	fresh := make([]string, len(rc.Datas))
+	for i, d := range rc.Datas {
+		nodes[i] = d.Node()
+		o, err := implSelect(text, nodes[i])
+		if err != nil {
+			return
+		}
+		fresh[i] = outKey(o)
+	}
+	apply := func(i int) string {
+		n, serr := shared.Select(nodes[i])
+		switch {
+		case serr != nil:
+			return sel.Error.String()
+		case n == nil:
+			return sel.NoValue.String()
+		}
+		return "v:" + canon(n)
+	}
+	for round := 0; round < 3; round++ {
+		for i := range nodes {
+			if got := apply(i); got != fresh[i] {
+				c.Fail("C12/reuse/sequential", "parsed selector %q reused on datum %d gives %s, a fresh parse gives %s", text, i, got, fresh[i])
+			}
+		}
+	}
+	if rc.Goroutines > 1 {
+		bad := make(chan string, 8)
+		if pv := h.Concurrently(rc.Goroutines, func(g int) {
+			for k := 0; k < 3*len(nodes); k++ {
+				i := (k + g) % len(nodes)
+				if got := apply(i); got != fresh[i] {
+					select {
+					case bad <- fmt.Sprintf("datum %d: %s vs %s", i, got, fresh[i]):
+					default:
+					}
+				}
+			}
+		}); pv != nil {
+			c.Fail("C12/panic", "concurrent Select panicked: %v", pv)
+		}
+		close(bad)
+		for b := range bad {
+			c.Fail("C12/reuse/concurrent", "shared parsed selector %q under concurrency: %s", text, b)
+		}
+	}
+	if len(rc.Sel) >= 2 {
+		c.P.NonTrivial([]any{"reuse", rc.Sel.KindSeq(), len(rc.Datas), rc.Goroutines}, map[string]any{"mode": "reuse", "selector": text, "datas": len(rc.Datas), "goroutines": rc.Goroutines})
+	}
+}
+
+var reuseProp = h.Define(P, "reuse", func(t *rapid.T) ReuseCase {
+	d := val.Gen(t, val.Cfg{Depth: 4, MaxLen: 4, Keys: keyAlphabet})
+	rc := ReuseCase{Sel: sel.GenFor(t, d, sel.GenCfg{MaxSegs: 5}), Datas: []val.V{d}, Goroutines: rapid.IntRange(1, 6).Draw(t, "goroutines")}
+	n := rapid.IntRange(1, 3).Draw(t, "ndatas")
+	for i := 0; i < n; i++ {
+		rc.Datas = append(rc.Datas, val.Gen(t, val.Cfg{Depth: 3, MaxLen: 4, Keys: keyAlphabet}))
+	}
+	return rc
+}, runReuse)
+
+func TestReuse(t *testing.T) { reuseProp.Check(t) }
